@@ -17,7 +17,9 @@ def py_score(regs, levels):
 
 
 def py_opt(regs):
-    """independent brute force over unbounded levels (levels <= number of stems suffices)"""
+    """independent brute force: the score is additive over the connected groups of crossing stems, and in an optimal assignment
+    a stem crossed by d others sits on a level <= d (at most d levels are taken by its neighbours, and moving it to a free lower
+    level would raise the score), so every group is enumerated on its own with stem v ranging over levels 0..deg(v)"""
     n = len(regs)
     adj = [[False] * n for _ in range(n)]
     for i, j in itertools.combinations(range(n), 2):
@@ -25,20 +27,39 @@ def py_opt(regs):
         m, nn, _ = regs[j]
         if k < m < l < nn or m < k < nn < l:
             adj[i][j] = adj[j][i] = True
-    best = [None]
-    cur = [0] * n
+    seen, total = set(), 0
+    for s0 in range(n):
+        if s0 in seen:
+            continue
+        comp, todo = [], [s0]
+        seen.add(s0)
+        while todo:
+            v = todo.pop()
+            comp.append(v)
+            for w in range(n):
+                if adj[v][w] and w not in seen:
+                    seen.add(w)
+                    todo.append(w)
+        comp.sort()
+        size = len(comp)
+        deg = {v: sum(1 for w in comp if adj[v][w]) for v in comp}
+        best = [None]
+        cur = {}
 
-    def rec(i, sc):
-        if i == n:
-            if best[0] is None or sc > best[0]:
-                best[0] = sc
-            return
-        for lv in range(n):
-            if all(not (adj[i][j] and cur[j] == lv) for j in range(i)):
-                cur[i] = lv
-                rec(i + 1, sc + (regs[i][2] if lv == 0 else -lv * regs[i][2]))
-    rec(0, 0)
-    return best[0], adj
+        def rec(t, sc):
+            if t == size:
+                if best[0] is None or sc > best[0]:
+                    best[0] = sc
+                return
+            v = comp[t]
+            for lv in range(deg[v] + 1):
+                if all(not (adj[v][w] and cur.get(w) == lv) for w in comp[:t]):
+                    cur[v] = lv
+                    rec(t + 1, sc + (regs[v][2] if lv == 0 else -lv * regs[v][2]))
+            cur.pop(v, None)
+        rec(0, 0)
+        total += best[0]
+    return total, adj
 
 
 def structures(ctx):
